@@ -57,7 +57,9 @@ def parseToken (t : String) : Except String Token :=
 /-- the token field: the tokens and whether the request ended in a panic -/
 def parseTokens (s : String) : Except String (List Token × Bool) :=
   let ws := (s.splitOn " ").filter (· ≠ "")
-  let panicked := ws.getLast? == some "!PANIC"
+  -- `!HANG`: the request did not return (reported by the harness watchdog); parsed like a panic,
+  -- the Python-side oracle tells the two apart
+  let panicked := ws.getLast? == some "!PANIC" || ws.getLast? == some "!HANG"
   let ws := if panicked then ws.dropLast else ws
   let ws := if ws == ["."] then [] else ws
   (ws.mapM parseToken).map (fun ts => (ts, panicked))
